@@ -174,7 +174,7 @@ func normMsg(m string) string {
 	if len(m) > 160 {
 		m = m[:160]
 	}
-	return m
+	return reDigits.ReplaceAllString(m, "N")
 }
 
 func firstLine(s string) string {
